@@ -526,7 +526,7 @@ theorem msgstr_plan_strict {σ F : Type} (b : Backend σ F) (msg : Msg σ) (f0 :
 /-- **`omission_window`: the window made explicit.**  In a catalog whose (only) `Plural-Forms` field is `pf`, the preimage
     entry that decides source and tolerance for `msgstr[i]` is the increasing list of the `n < 200` at which the declared
     expression evaluates to `i`; after the range flag: the `n` of `[0, 200) ∩ [range_min, range_max]` selecting form `i`. -/
-theorem omission_window {pf : List Char} {pre : CheckPlurals.Preimage} (h : preimageOfHeader [pf] = some pre) (fl : Flags) :
+theorem omission_window {tmpl : Bool} {pf : List Char} {pre : CheckPlurals.Preimage} (h : preimageOfHeader tmpl [pf] = some pre) (fl : Flags) :
     ∃ n e lj rj, CheckPlurals.parsePluralForms pf = .ok n e lj rj ∧ ∀ (i : Nat) (pi : List Nat), preimageGet pre i = some pi →
       pi.filter fl.inRange = (List.range CheckPlurals.codomainLimit).filter (fun k => selects e i k && fl.inRange k) := by
   obtain ⟨n, e, lj, rj, hpf, hget⟩ := preimageOfHeader_get h
